@@ -24,6 +24,14 @@ RULE = ("(1) the parameter splitter on every text of length <= 5 over {a , space
         "members likely; every slice of the fixed, 4 per seeded list; mostly >= 2 members selected; both notations): "
         "parent(n) n in default,0..4, name() of each climbed ancestor, name() of the reached nodes, and each parent() result "
         "must be held by its reported parent under its reported parentref; has_child on hashes, lists, nulls, scalars; "
+        "keys that a parameter can only name quoted or escaped (17 keys holding literal backslashes, commas, quotes, inner / edge "
+        "blanks) as the attribute / child key of Arrays-of-Hashes, hashes of hashes and single hashes of <= 3 members, next to "
+        "members holding a look-alike key (the key without its backslashes, with them doubled, unquoted, cut at the comma ...) "
+        "instead or as well, x has_child / max / min / unique / distinct x inversion x the escaped, single- and double-quoted "
+        "spelling of the key x two ways of writing that in a path - judged by the model and model-free (has_child = exactly the "
+        "hashes having / lacking the key); max() / min() plain and inverted over what a flat or nested collector ((X)), "
+        "((X)+(Y)), (((X)+(Y))+(Z)) ... gathered from lists / hashes of ints and floats with ties, both notations - judged on the "
+        "values (numeric greatest / least, inverted the others in any order); "
         "collections holding containers (crash classes).  Observable: result node addresses in order (identity of the "
         "yielded container, else parent identity + parentref), for name() the yielded key/index, or the error class.  "
         "distinct_nontrivial = distinct cases with a non-empty result that is a proper subset of the members or a "
@@ -198,18 +206,40 @@ def py_eq(a, b):
     return a == b
 
 
+def query_text(c, inv):
+    """The query of a case as path text; `ptext` is the parameter text as it must be written in a path so that the
+    path parser hands `params` to the keyword (backslashes doubled, blanks / quotes escaped)."""
+    return "%s[%s%s(%s)]" % (c["path"], "!" if inv else "", KW[c["kw"]], c.get("ptext", c["params"]))
+
+
 def direct_judge(c, path, got):
     """The clauses of the property judged without the model, with Python `==` on the values themselves, for an
     Array-of-Hashes / hash-of-hashes at `ats[0]` and a parameter naming the attribute:
     unique = the members whose value occurs once (inverted: more than once), distinct = the first member of each group
     of equal values, max/min plain + inverted = a partition of ALL the members.  None = held or not judged."""
-    kw, inv, name = c["kw"], c["inv"], c["params"]
-    if kw not in ("UNIQUE", "DISTINCT", "MAX", "MIN") or not name.isalnum() or len(c["ats"]) != 1:
+    kw, inv = c["kw"], c["inv"]
+    # `key`: the key the parameter text designates when that text is a quoted / escaped spelling of it
+    name = c.get("key", c["params"])
+    if len(c["ats"]) != 1 or ("key" not in c and not name.isalnum()):
         return None
     at = c["ats"][0]
     coll = codec.json_to_plain(c["doc"])
     for kind, ref in at:
         coll = coll[ref]
+    if kw == "HAS_CHILD" and "key" in c:
+        # has_child returns exactly the hashes having (inverted: lacking) the named key
+        if isinstance(coll, dict):
+            want = [at] if (name in coll) != inv else []
+        elif isinstance(coll, list) and coll and all(isinstance(v, dict) for v in coll):
+            want = [at + [["i", i]] for i, v in enumerate(coll) if (name in v) != inv]
+        else:
+            return None
+        if got != want:
+            return ("direct:%shas_child-not-the-hashes-%s-the-key" % ("!" if inv else "", "lacking" if inv else "having"),
+                    "yielded %s; the hashes %s the key %r are %s" % (got, "lacking" if inv else "having", name, want))
+        return None
+    if kw not in ("UNIQUE", "DISTINCT", "MAX", "MIN"):
+        return None
     if isinstance(coll, dict):
         members = [(["k", k], v) for k, v in coll.items()]
         if name in coll and any(not isinstance(v, dict) for _, v in members):
@@ -240,7 +270,7 @@ def direct_judge(c, path, got):
     if not inv:
         return None
     # max/min: the plain and the inverted result partition the members
-    okp, plain = run_kw(c["doc"], "%s[%s(%s)]" % (c["path"], KW[kw], name), kw, False, name)
+    okp, plain = run_kw(c["doc"], query_text(c, False), kw, False, c["params"])
     if not okp or nodes_of(plain) is None or not (got or nodes_of(plain)):
         return None                          # both empty: the query is refused altogether
     plain = {"nodes": nodes_of(plain)}
@@ -273,7 +303,7 @@ def kw_chunk(cases):
         mos = [a["model"] for a in answers[k:k + len(c["ats"])]]
         k += len(c["ats"])
         case = dict(c, kind="kw")
-        path = "%s[%s%s(%s)]" % (c["path"], "!" if c["inv"] else "", KW[c["kw"]], c["params"])
+        path = query_text(c, c["inv"])
         case["query"] = path
         okp, im = run_kw(c["doc"], path, c["kw"], c["inv"], c["params"])
         stats["n"] += 1
@@ -456,6 +486,78 @@ def hash_cases(maxlen, rng, tier):
             for inv in (False, True):
                 cases.append({"fam": "hoh/param-names-own-key", "doc": doc, "path": "", "ats": [[]], "kw": kw, "inv": inv,
                               "params": "a", "members": 2})
+    return cases
+
+
+# keys a keyword parameter can only name in a quoted / escaped spelling: literal backslashes, commas, quotes, blanks
+ODD_KEYS = ["srv\\pub", "\\", "a\\", "\\a", "a\\\\b", "\\\\", "a\\,b", "a,b", ",", "a'b", 'a"b', "'a'", "it's", "a b", " a", "a ", " "]
+
+
+def decoys_of(key):
+    """Keys a wrong reading of the parameter text would look for instead: the key without its backslashes, with each
+    doubled, without quotes / commas / blanks, cut at the first comma."""
+    ds = [key.replace("\\", ""), key.replace("\\", "\\\\"), key.replace("\\", "", 1), key.strip(), key.replace(" ", ""),
+          key.replace("'", "").replace('"', ""), key.split(",")[0], key.replace(",", ""), "'%s'" % key, key + "\\"]
+    out = []
+    for d in ds:
+        if d and d != key and d not in out and not d.startswith("&"):
+            out.append(d)
+    return out
+
+
+def param_spellings(key):
+    """Parameter texts (what the keyword receives from the path parser) that designate `key` as ONE parameter:
+    every significant character escaped; the key between single / double quotes (backslashes and quotes escaped)."""
+    esc = "".join(("\\" + ch) if ch in "\\,'\" " else ch for ch in key)
+    inq = "".join(("\\" + ch) if ch in "\\'\"" else ch for ch in key)
+    out = [esc, "'%s'" % inq, '"%s"' % inq]
+    if "'" not in key and '"' not in key and "\\" not in key:
+        out.append("'%s'" % key)
+    return list(dict.fromkeys(out))
+
+
+def path_spellings(params):
+    """Path texts from which the path parser yields the parameter text `params`: backslashes doubled and every blank /
+    quote / bracket escaped; or backslashes doubled and blanks escaped only (quotes left to the path parser, which
+    keeps balanced ones).  run_kw checks that the parser really hands over `params` (else: path-not-expressible)."""
+    full = "".join(("\\" + ch) if ch in "\\ '\"()[]" else ch for ch in params)
+    light = "".join(("\\" + ch) if ch in "\\ " else ch for ch in params)
+    return list(dict.fromkeys([full, light]))
+
+
+def oddkey_cases(rng, tier):
+    """Arrays-of-Hashes and hashes (of hashes) whose attribute / child key holds literal backslashes, commas, quotes or
+    blanks, next to members holding a look-alike key instead (or both, with the values swapped): each keyword taking a
+    key name x inversion x every spelling of the key as a parameter x both ways of writing that in a path.  Judged by
+    the model and directly (`direct_judge`: has_child = the hashes having the key, unique/distinct, max/min partition)."""
+    cases = []
+    for key in ODD_KEYS:
+        decoys = decoys_of(key)
+        for dk in decoys[: (2 if tier == "quick" else 10)]:
+            states = [{"k": "map", "e": [[key, sj(2)]]}, {"k": "map", "e": [[dk, sj(10)]]},
+                      {"k": "map", "e": [[key, sj(10)], [dk, sj(2)]]}, {"k": "map", "e": [["other", sj(0)]]}]
+            combos = [t for n in (1, 2) for t in itertools.product(range(4), repeat=n)]
+            threes = list(itertools.product(range(4), repeat=3))
+            combos += rng.sample(threes, 6 if tier == "quick" else 40)
+            for idxs in combos:
+                n = len(idxs)
+                shapes = [("aoh", {"k": "seq", "i": [states[i] for i in idxs]})]
+                if n <= 2:
+                    shapes.append(("hoh", {"k": "map", "e": [["k%d" % j, states[i]] for j, i in enumerate(idxs)]}))
+                if n == 1:
+                    shapes.append(("hash", states[idxs[0]]))
+                for shape, coll in shapes:
+                    doc, path, ats, members = wrap(coll, n)[0]
+                    kws = ("HAS_CHILD",) if shape == "hash" else ("HAS_CHILD", "MAX", "MIN", "UNIQUE", "DISTINCT")
+                    for kw in kws:
+                        for params in param_spellings(key):
+                            ptexts = path_spellings(params)
+                            ptext = ptexts[rng.randrange(len(ptexts))] if (n == 3 or kw not in ("HAS_CHILD", "MAX")) else None
+                            for pt in ([ptext] if ptext is not None else ptexts):
+                                for inv in (False, True):
+                                    cases.append({"fam": "oddkey/%s/%s" % (shape, KW[kw]), "doc": doc, "path": path, "ats": ats,
+                                                  "kw": kw, "inv": inv, "params": params, "ptext": pt, "key": key,
+                                                  "members": n if shape != "hash" else 2, "direct": True})
     return cases
 
 
@@ -759,6 +861,125 @@ def random_cases(rng, n):
     return cases
 
 
+# --------------------------------------------------------------------------- max / min behind (nested) collectors
+
+def run_coll_kw(docj, path, kw, inv):
+    """Values (as [kind, text], in order) that `path` = <collector groups>[<!>max()|min()] yields on the real Processor."""
+    from yamlpath import Processor, YAMLPath
+    from yamlpath.enums import PathSegmentTypes
+    from yamlpath.path.searchkeywordterms import SearchKeywordTerms
+    from yamlpath.wrappers import NodeCoords
+    from harness.props import c12
+    doc = codec.json_to_ruamel(docj)
+
+    def parse():
+        yp = YAMLPath(path)
+        segs = list(yp.escaped)
+        last = segs[-1][1] if kw else None
+        ok = all(sg[0] is PathSegmentTypes.COLLECTOR for sg in (segs[:-1] if kw else segs)) and len(segs) >= 1
+        if kw:
+            ok = (ok and len(segs) >= 2 and isinstance(last, SearchKeywordTerms) and last.keyword.name == kw
+                  and bool(last.inverted) == inv and last._parameters == "")
+        return yp, ok
+    st, val = cc.guarded(parse)
+    if st != "ok" or not val[1]:
+        return None
+    res = []
+
+    def flat(x):
+        while isinstance(x, NodeCoords):
+            x = x.node
+        if isinstance(x, list):
+            for y in x:
+                flat(y)
+        else:
+            res.append(c12.ident(x))
+
+    def go():
+        for nc in Processor(core.quiet_logger(), doc).get_nodes(val[0], mustexist=True):
+            flat(nc)
+    st, val2 = cc.guarded(go)
+    if st == "ok":
+        return {"vals": res}
+    if st == "timeout":
+        return {"err": "timeout"}
+    cls = core.exc_class(val2)
+    if cls == "ypath" and not res:
+        return {"vals": []}
+    return {"err": cls, "site": core.crash_site(val2)}
+
+
+def coll_kw_chunk(cases):
+    """max() / min(), plain and inverted, over what a (nested) collector gathered from lists / hashes of numbers: exactly
+    the gathered members whose value is greatest / least (all of them on a tie), inverted exactly the others - judged on
+    the values themselves (numbers only, so `greatest` is numeric)."""
+    from harness.props import c12
+    stats = {"n": 0, "nontrivial": 0, "oom": 0, "fam": {}, "skipped": 0, "crash_agreed": {}}
+    viol = []
+    for c in cases:
+        expr = c12.coll_expr(c["shape"], c["operands"], c["fslash"])
+        plainj = codec.json_to_plain(c["doc"])
+        cands = []
+        for key, _star in c["operands"]:
+            coll = plainj[key]
+            cands += list(coll.values()) if isinstance(coll, dict) else list(coll)
+        stats["n"] += 1
+        base = run_coll_kw(c["doc"], expr, None, False)
+        if base is None or base.get("vals") != [c12.ident(v) for v in cands]:
+            stats["skipped"] += 1            # what the collector gathers is not C13's subject
+            continue
+        path = "%s[%s%s()]" % (expr, "!" if c["inv"] else "", KW[c["kw"]])
+        got = run_coll_kw(c["doc"], path, c["kw"], c["inv"])
+        if got is None:
+            stats["skipped"] += 1
+            continue
+        nested = "nested" if "((" in c["shape"] else "flat"
+        fam = "collector-%s/%s" % (nested, KW[c["kw"]])
+        stats["fam"][fam] = stats["fam"].get(fam, 0) + 1
+        case = dict(c, kind="collkw", query=path)
+        what = "%s on %s" % (path, json.dumps(plainj))
+        if "err" in got:
+            viol.append(("%s@%s" % (got["err"], got.get("site")), what + " raised %s" % got["err"], case))
+            continue
+        best = max(cands) if c["kw"] == "MAX" else min(cands)
+        want = [c12.ident(v) for v in cands if (v == best) != c["inv"]]
+        # the property fixes WHICH members, not the order in which the inverted form hands them out
+        if sorted(got["vals"]) != sorted(want):
+            viol.append(("direct:collector-%s:%s%s" % (nested, "!" if c["inv"] else "", KW[c["kw"]]),
+                         what + " yielded %s; the gathered members %s %s are %s"
+                         % (got["vals"], "other than the" if c["inv"] else "with the", "greatest" if c["kw"] == "MAX" else "least", want), case))
+            continue
+        if 0 < len(want) < len(cands):
+            stats["nontrivial"] += 1
+    return stats, viol[:40], [], []
+
+
+def collector_kw_cases(rng, tier):
+    """Three collections (lists; the third may be a hash) of ints / floats whose text order differs from their numeric
+    order, repeats allowed (ties); every grouping of c12.COLL_SHAPES over 1-3 of them; max / min x inversion."""
+    from harness.props import c12
+    cases = []
+    for d in range(60 if tier == "quick" else 600):
+        pool = [c12.COLL_NUMS, c12.COLL_NUMS, c12.COLL_FLOATS, c12.COLL_NUMS + c12.COLL_FLOATS][d % 4]
+        colls = {}
+        for key in ("a", "b", "c"):
+            vals = [rng.choice(pool) for _ in range(rng.randint(1, 4))]
+            if key == "c" and rng.random() < 0.5:
+                colls[key] = {"k": "map", "e": [["k%d" % i, sj(v)] for i, v in enumerate(vals)]}
+            else:
+                colls[key] = {"k": "seq", "i": [sj(v) for v in vals]}
+        doc = {"k": "map", "e": [[k, colls[k]] for k in ("a", "b", "c")]}
+        for n in (1, 2, 3):
+            for shape in c12.COLL_SHAPES[n]:
+                keys = rng.sample(["a", "b", "c"], n)
+                operands = [[k, True if colls[k]["k"] == "map" else rng.random() < 0.5] for k in keys]
+                for kw in ("MAX", "MIN"):
+                    for inv in (False, True):
+                        cases.append({"doc": doc, "operands": operands, "shape": shape, "fslash": rng.random() < 0.3,
+                                      "kw": kw, "inv": inv})
+    return cases
+
+
 def check_tables(chk):
     from yamlpath.enums import PathSearchKeywords
     live = {k.name: str(k) for k in PathSearchKeywords}
@@ -774,7 +995,8 @@ def run(chk: core.Check):
     if chk.replay_in:
         rp = json.load(open(chk.replay_in))
         c = rp.get("case", rp)
-        res = split_chunk([c["params"]]) if c.get("kind") == "split" else kw_chunk([c])
+        res = (split_chunk([c["params"]]) if c.get("kind") == "split" else
+               coll_kw_chunk([c]) if c.get("kind") == "collkw" else kw_chunk([c]))
         st, viol, disag, _ = res
         print("replay:", json.dumps({"case": c, "violations": [v[:2] for v in viol], "disagreements": [d[:2] for d in disag]},
                                     default=str, ensure_ascii=False))
@@ -790,9 +1012,16 @@ def run(chk: core.Check):
     cases += deep_parent_cases(rng, 60 if tier == "quick" else 600)
     cases += slice_parent_cases(random.Random(chk.seed * 17 + 1), 60 if tier == "quick" else 600)
     cases += random_cases(rng, 3000 if tier == "quick" else 100000)
+    odd = oddkey_cases(random.Random(chk.seed * 31 + 7), tier)
+    chk.extra_cov["oddkey_cases"] = len(odd)
+    cases += odd
     chk.extra_cov["cases_generated"] = len(cases)
     rng.shuffle(cases)
     for r in core.pmap(kw_chunk, core.chunked(cases, 64)):
+        _absorb(chk, *r)
+    ckw = collector_kw_cases(random.Random(chk.seed * 11 + 3), tier)
+    chk.extra_cov["collector_kw_cases"] = len(ckw)
+    for r in core.pmap(coll_kw_chunk, core.chunked(ckw, 64)):
         _absorb(chk, *r)
     chk.exhaustive = True
     chk.extra_cov["exhaustive_bound"] = ("all sequences of length <= 5 over 3 values x 7 value triples; all AoH (5 member states) "
